@@ -97,6 +97,17 @@ func init() {
 					}
 				}
 			}
+			// a guarded helper that panics and a function that stops without waiting for it (plain flavour: see the behaviour)
+			for k := 0; k < map[string]int{"quick": 2, "thorough": 6}[tier]; k++ {
+				add(modes[k%len(modes)], []int{engine.BHelperPanicThenFailNow}, false, engine.BehaviourNames[engine.BHelperPanicThenFailNow])
+				last := &cs[len(cs)-1]
+				last.Race = false
+				var hp c07Params
+				last.Params(&hp)
+				// (a run whose workers get stuck ends by its duration and is judged on what it reports)
+				hp.Spec.MaxDurationMS, hp.Spec.CompletionMS = 2500, 500
+				last.P = core.MustJSON(hp)
+			}
 			nmix := 12
 			if tier == "thorough" {
 				nmix = 120
@@ -394,6 +405,19 @@ func c07Once(c *core.Case, o *core.Outcome, p c07Params, reg *scenarios.Scenario
 	if pr := k.Problems(); len(pr) > 0 {
 		o.Violate("confinement:"+p.Desc, "%s (%s)", joinProblems(pr), p.Desc)
 		return
+	}
+	if S != p.Spec.MaxIterations && len(p.Kinds) == 1 && p.Kinds[0] == engine.BHelperPanicThenFailNow {
+		// the run ended by its duration: every iteration function that ended is reported - if not by the result (taken
+		// when the run gave up waiting), then at least by the iteration metric a little later
+		time.Sleep(300 * time.Millisecond)
+		ended := k.Started.Load() - k.Inflight.Load()
+		if fams, gerr := engine.Gather(r.Registry); gerr == nil {
+			ic := engine.IterationCounts(fams)
+			if rec := int64(ic["success"] + ic["fail"]); rec < ended {
+				o.Violate("survival-unreported:"+p.Desc, "%d iteration functions were invoked and ended (every one of them stopped by FailNow after a guarded helper goroutine of its own had panicked); 300 ms after the run only %d of them have been reported, and the run started %d of its %d iterations before its max-duration ended it: workers stopped after such an iteration (%s)", ended, rec, S, p.Spec.MaxIterations, p.Desc)
+				return
+			}
+		}
 	}
 	if S != p.Spec.MaxIterations {
 		o.Inconc("run did not execute ids 1..N (S=%d N=%d) (%s)", S, p.Spec.MaxIterations, p.Desc)
